@@ -174,7 +174,7 @@ Definition check_dcase (c : dcase) : list Z :=
   ++ (if hash_strs (parse_sql_statements text) =? d_split_hash c then [] else [b + 2])
   ++ (if is_abstain m then (if may_abstain (d_db c) then [] else [b + 4])
       else if outcome_agrees (d_db c) m (d_obs c) then [] else [b + 3])
-  ++ (if db_ok fl (d_db c) && generated_ok (d_generated c)
+  ++ (if db_ok (d_db c) && generated_ok (d_generated c)
       then (match m with OOk a => if db_same a (d_db c) then [] else [b + 5] | _ => [b + 5] end)
       else []).
 
